@@ -55,7 +55,7 @@ pub const AWKWARD: &[&[u8]] = &[
     b"sp ace", b"qu\"ote", b"back\\slash", b"caf\xc3\xa9", b"hi\xff", b" lead", b"trail ", b"d/sp ace/f", b"tab\\t",
     b"\"q", b"a\\", b"oct\\101", b"\xe2\x80\x83em", b"x~", b"*star", b"que?",
     // siblings that differ in case only (they collapse when the importer runs with core.ignorecase=true)
-    b"A", b"Keep", b"docs/Readme.txt", b"docs/README.TXT", b"SRC/a.md", b"d/F",
+    b"A", b"Keep", b"docs/Readme.txt", b"docs/README.TXT", b"SRC/a.md", b"d/F", b"DOCS/b.txt", b"Build/out.LOG", b"README",
 ];
 const MODES: &[&str] = &["100644", "100644", "100644", "100755", "120000"];
 const NAMES: &[&[u8]] = &[b"A U Thor", b"J\xc3\xb6rg M", b"Al 17", b"", b"author committer", b"N O'Body"];
@@ -352,7 +352,12 @@ impl OptSet {
         if rng.chance(3, 5) {
             for _ in 0..1 + rng.below(2) { if rng.chance(1, 2) { o.paths.push(prefix(rng)); } }
             if rng.chance(1, 3) { o.globs.push(rng.pick(&[&b"src/**/*.md"[..], b"**/x", b"*.log", b"**/*.log", b"d/*", b"*", b"**", b"drop/?", b"**/f"]).to_vec()); }
-            if rng.chance(1, 4) { o.regexes.push(rng.pick(&[r"\.md$", "^d/", "x", r"^[a-b]$", " ", "\\\\"]).to_string()); }
+            if rng.chance(1, 4) {
+                o.regexes.push(rng.pick(&[r"\.md$", "^d/", "x", r"^[a-b]$", " ", "\\\\", r"(?i)^readme", r"(?i)\.LOG$", "(?i)^keep$"]).to_string());
+                // a second --path-regex: the selection is the union of the individual patterns (an inline flag of one must not
+                // leak into the other)
+                if rng.chance(1, 2) { o.regexes.push(rng.pick(&["^docs/", "^src/", "^a$", r"^SRC/", "^build/"]).to_string()); }
+            }
             o.invert = rng.chance(1, 3);
         }
         if rng.chance(1, 3) {
